@@ -389,7 +389,7 @@ func hashOf(e iface.IPFSLogEntry) cid.Cid {
 // ---------------------------------------------------------------- C08
 
 func CheckC08(run *evid.Run) {
-	n := pick(run.Tier, 3000, 120000)
+	n := pick(run.Tier, 12000, 200000)
 	nm := pick(run.Tier, 300, 6000)
 	run.Rule = "seeded corpus of entries created with the real codecs (payload classes ascii / UTF-8 / invalid UTF-8 / NUL / binary / 64 KiB / 1 byte; 0-16 predecessors and references; clock time in {0,1,2,2^31,2^53,MaxInt64}; clock ids of 1-65 random bytes or the writer key; 3 identities; default codec 3/4, link-encrypting 1/4): write -> read back -> field-by-field equality, re-encode -> same CID, encode a deep copy on a fresh store -> same CID, CID = hash of stored bytes; manifests with 1-32 heads; the pinned interoperability vectors and v0/v1 fixtures of the repository's suite re-created with the suite's key material; and the same corpus encoded in 3 child processes (GOMAXPROCS 1/4/16) whose CID lists must be identical to the parent's. Non-trivial = entry with links, non-ascii payload or explicit clock; distinct = (codec, class, #next bucket, #refs bucket, clock class)"
 	run.Assumptions = []string{"AdditionalData (derived, in-memory only) is compared through Verify in C18, not field by field", "pinned vectors are the literal CIDs of test/entry_test.go and test/utils_fixtures_test.go; no new golden values are invented"}
